@@ -24,6 +24,7 @@ type application struct {
 }
 
 func (a *application) start(mode gen.ApplicationMode, options gen.ApplicationOptionsExtra) error {
+	lib.VerifPoint("app.start.cas", a.spec.Name)
 	if swapped := atomic.CompareAndSwapInt32(&a.state,
 		int32(gen.ApplicationStateLoaded), int32(gen.ApplicationStateRunning)); swapped == false {
 		if atomic.LoadInt32(&a.state) == int32(gen.ApplicationStateRunning) {
@@ -61,8 +62,10 @@ func (a *application) start(mode gen.ApplicationMode, options gen.ApplicationOpt
 
 		opts.Args = item.Args
 
+		lib.VerifPoint("app.spawn", a.spec.Name)
 		pid, err := a.node.spawn(item.Factory, opts)
 		if err != nil {
+			lib.VerifPoint("app.rollback", a.spec.Name)
 			a.group.Range(func(pid gen.PID, _ bool) bool {
 				a.node.Kill(pid)
 				return true
@@ -71,9 +74,11 @@ func (a *application) start(mode gen.ApplicationMode, options gen.ApplicationOpt
 			return err
 		}
 
+		lib.VerifPoint("app.store", a.spec.Name)
 		a.group.Store(pid, true)
 	}
 
+	lib.VerifPoint("app.started", a.spec.Name)
 	a.stopped = make(chan struct{})
 	a.node.log.Info("application %s (%s) started", a.spec.Name, a.mode)
 	a.mode = mode
@@ -99,6 +104,7 @@ func (a *application) start(mode gen.ApplicationMode, options gen.ApplicationOpt
 }
 
 func (a *application) stop(force bool, timeout time.Duration) error {
+	lib.VerifPoint("app.stop.cas", a.spec.Name)
 	if swapped := atomic.CompareAndSwapInt32(&a.state,
 		int32(gen.ApplicationStateRunning),
 		int32(gen.ApplicationStateStopping)); swapped == false {
@@ -120,6 +126,7 @@ func (a *application) stop(force bool, timeout time.Duration) error {
 	// update mode to prevent triggering 'permantent' mode
 	a.mode = gen.ApplicationModeTemporary
 
+	lib.VerifPoint("app.stop.range", a.spec.Name)
 	a.group.Range(func(pid gen.PID, _ bool) bool {
 		if force {
 			a.node.Kill(pid)
@@ -135,6 +142,7 @@ func (a *application) stop(force bool, timeout time.Duration) error {
 		a.reason = gen.TerminateReasonShutdown
 	}
 
+	lib.VerifPoint("app.stop.wait", a.spec.Name)
 	select {
 	case <-a.stopped:
 		return nil
@@ -144,12 +152,14 @@ func (a *application) stop(force bool, timeout time.Duration) error {
 }
 
 func (a *application) terminate(pid gen.PID, reason error) {
+	lib.VerifPoint("app.term.delete", a.spec.Name)
 	if _, exist := a.group.LoadAndDelete(pid); exist == false {
 		// it was started as a child process somewhere deep in the supervision tree
 		// do nothing.
 		return
 	}
 
+	lib.VerifPoint("app.term.mode", a.spec.Name)
 	switch a.mode {
 	case gen.ApplicationModePermanent:
 		state := atomic.SwapInt32(&a.state, int32(gen.ApplicationStateStopping))
@@ -184,6 +194,7 @@ func (a *application) terminate(pid gen.PID, reason error) {
 		// do nothing
 	}
 
+	lib.VerifPoint("app.term.last", a.spec.Name)
 	if a.group.Len() > 0 {
 		// waiting for the last application member to be terminated
 		return
@@ -193,6 +204,7 @@ func (a *application) terminate(pid gen.PID, reason error) {
 		a.reason = gen.TerminateReasonNormal
 	}
 
+	lib.VerifPoint("app.term.swap", a.spec.Name)
 	old := atomic.SwapInt32(&a.state, int32(gen.ApplicationStateLoaded))
 	if old == int32(gen.ApplicationStateLoaded) {
 		return
@@ -216,6 +228,7 @@ func (a *application) terminate(pid gen.PID, reason error) {
 		}()
 	}
 
+	lib.VerifPoint("app.term.cb", a.spec.Name)
 	a.behavior.Terminate(a.reason)
 
 	network := a.node.Network()
